@@ -24,7 +24,11 @@ that is the code's behaviour on the pinned and the repaired tree, proved on conc
 `Ts/Props/C02.lean` (`exSplit`: "header split over two packets ⇒ begin with `parsed:none`, data
 still delivered").  Under the stricter reading the clause would be false of the code; the
 reviewers and I judged the lenient reading to be the intended one because the trait hands the
-consumer the `PesHeader` precisely so that it can decide.
+consumer the `PesHeader` precisely so that it can decide.  The choice is recorded as a THEOREM:
+`rejected_optional_header_still_delivered` (end of this file: two concrete packets, `from_bytes` =
+`Some`, `contents` = `Parsed(None)`, `begin_packet` and the continuation data delivered) and
+`Ts.Props.C02Trace.rejected_optional_header_still_delivered_split` (the `exSplit` packets of
+`Ts/Props/C02.lean`: a PES header split over two transport packets).
 -/
 namespace Ts.Props.C08
 open Ts Ts.Packet Ts.PesFilter Ts.Spec Ts.Spec.Protocol Ts.Lemmas.C08
@@ -366,5 +370,54 @@ example : consume {} (mkPkt 0x40 0x10 []) = .ok (⟨some 0, .ignoreRest⟩, [.st
 /-- arbitrary garbage (not even a sync byte) is handled without panic -/
 example : consume ⟨some 3, .started⟩ (List.replicate 188 0xff)
     = .ok (⟨some 15, .ignoreRest⟩, [.ccErr]) := by decide +kernel
+
+/-! ### the READING of "header could not be recognised", as a theorem -/
+
+/-- helper: read `PesHeader::contents = Parsed(None)` off a Boolean evaluation -/
+theorem contents_parsed_none_of_check (h : Bytes)
+    (hc : (match Pes.contents h with | .ok (.parsed none) => true | _ => false) = true) :
+    Pes.contents h = .ok (.parsed none) := by
+  cases hh : Pes.contents h with
+  | panic s => rw [hh] at hc; cases hc
+  | ok c =>
+    cases c with
+    | payload r => rw [hh] at hc; cases hc
+    | parsed o =>
+      cases o with
+      | none => rfl
+      | some x => rw [hh] at hc; cases hc
+
+/-- a unit-start packet whose payload starts with the recognisable PES header `00 00 01 e0 00 00`
+(stream id `e0`: a stream id WITH an optional header) followed by `00`: the optional header's
+marker bits are not `'10'`, so `PesParsedContents::from_bytes` rejects it -/
+def rejFirst : Bytes := mkPkt 0x40 0x10 (pesStart ++ [0x00])
+/-- a continuation packet (counter 1, 184 payload bytes) -/
+def rejCont : Bytes := mkPkt 0x00 0x11 []
+
+/-- **THE READING, witnessed.**  There are two 188-byte packets — a unit start whose payload is
+accepted by `PesHeader::from_bytes` (`00 00 01` prefix, ≥ 6 bytes) but whose OPTIONAL header is
+rejected (`PesHeader::contents` = `Parsed(None)`, what `App.beginInfo` reports as `kind = 2`), then a
+continuation — on which the filter delivers `start_stream`, `begin_packet` AND the continuation
+data.  So "data of a PES packet whose header could not be recognised is not delivered" holds of the
+code only when "could not be recognised" is read as "`PesHeader::from_bytes` = `None`" (then
+`unrecognised_header_not_delivered…` apply: no `begin_packet`, no data), NOT as "the optional header
+was rejected".  (`Ts/Props/C02Trace.lean`, `rejected_optional_header_still_delivered_split`, shows
+the same on a PES header split over two transport packets.) -/
+theorem rejected_optional_header_still_delivered :
+    ∃ p0 p1 : Bytes, p0.length = 188 ∧ p1.length = 188 ∧ ∃ f' o l o' l',
+      run {} [p0, p1] = .ok (f', [[.start, .beginPkt o l], [.cont o' l']]) ∧
+      Pes.headerFromBytes (rangeBytes p0 (o, l)) = .ok (some (rangeBytes p0 (o, l))) ∧
+      Pes.contents (rangeBytes p0 (o, l)) = .ok (.parsed none) := by
+  refine ⟨rejFirst, rejCont, by decide +kernel, by decide +kernel, ⟨some 1, .started⟩, 4, 184, 4, 184,
+    by decide +kernel, by decide +kernel, ?_⟩
+  exact contents_parsed_none_of_check _ (by decide +kernel)
+
+/-- the contrast: the same two packets with the start-code prefix destroyed (`00 00 02`):
+`PesHeader::from_bytes` = `None`, and NOTHING of the packet is delivered — neither `begin_packet` nor
+the continuation data (an instance of `unrecognised_header_not_delivered_run`) -/
+example : run {} [mkPkt 0x40 0x10 [0, 0, 2, 0xe0, 0, 0, 0x00], rejCont]
+      = .ok (⟨some 1, .ignoreRest⟩, [[.start], []])
+    ∧ Pes.headerFromBytes (rangeBytes (mkPkt 0x40 0x10 [0, 0, 2, 0xe0, 0, 0, 0x00]) (4, 184)) = .ok none := by
+  decide +kernel
 
 end Ts.Props.C08
